@@ -364,8 +364,7 @@ class HBatch(_batching.BatchBase):
     def __repr__(self):
         return "<HBatch %s#%s>" % (self.kind, self.serial)
 
-    def __str__(self):
-        return "<HBatch %s#%s>" % (self.kind, self.serial)
+    # (no __str__ override: str(batch) must be asynq's own BatchBase.__str__, which the dump options call)
 
     def _try_switch_active_batch(self):
         if self.rt.active.get(self.kind) is self:
@@ -476,9 +475,6 @@ class HItem(_batching.BatchItemBase):
         return _batching.BatchItemBase.is_computed(self)
 
     def __repr__(self):
-        return "<HItem %s>" % (self.sid,)
-
-    def __str__(self):
         return "<HItem %s>" % (self.sid,)
 
 
